@@ -277,13 +277,69 @@ fn one_case(run: &Run, case: u64) {
     }
 }
 
+/// Scale: more than a thousand directories matched by one pattern in one backup.
+fn many_excluded_dirs(run: &Run) {
+    let mut spec = Snapshot::new();
+    spec.insert("/".into(), Node::dir());
+    for i in 0..1_150 {
+        let p = format!("/proj{i:04}");
+        spec.insert(p.clone(), Node::dir());
+        spec.insert(format!("{p}/main.c"), Node::file(vec![b'c'; 3]));
+        spec.insert(format!("{p}/target"), Node::dir());
+        spec.insert(format!("{p}/target/debug"), Node::dir());
+        spec.insert(format!("{p}/target/debug/main.o"), Node::file(vec![b'o'; 2]));
+    }
+    let sc = Scratch::new("c15big");
+    let src = sc.join("src");
+    tree::sync_to_disk(None, &spec, &src).expect("materialise");
+    let pats = vec!["target".to_string(), "*.o".to_string()];
+    let model = GlobModel::new(&pats);
+    let expected: BTreeSet<String> = spec.keys().filter(|p| p.as_str() != "/" && !model.excluded(p)).cloned().collect();
+    let o = Opts { hunk: 1000, block: 64, cap: 16 };
+    run.eval();
+    let replay = json!({"many_excluded_dirs": true});
+    let arch_a = sc.join("arch_a");
+    cs::create_archive(&arch_a);
+    let b = cs::backup(cs::local(&arch_a), &src, o, &pats, None);
+    if !b.clean() {
+        run.violation("backup-with-excludes-failed", b.describe(), replay);
+        return;
+    }
+    let raw = fmt06::read_archive(&arch_a, false);
+    let stored: BTreeSet<String> = raw.bands[&0].own_entries().iter().map(|e| e.apath.clone()).filter(|p| p != "/").collect();
+    let arch_f = sc.join("arch_f");
+    cs::create_archive(&arch_f);
+    let _ = cs::backup(cs::local(&arch_f), &src, o, &[], None);
+    let listed: BTreeSet<String> = cs::list(cs::local(&arch_f), Some(0), "/", &pats).value().map(|v| v.iter().map(|e| e.apath.clone()).filter(|p| p != "/").collect()).unwrap_or_default();
+    run.count("observations_compared", 2);
+    for (name, got) in [("backup", &stored), ("list", &listed)] {
+        if got != &expected {
+            run.violation(
+                format!("{name}-with-excludes-differs-from-rule:{}", if got.is_subset(&expected) { "dropped-too-much" } else { "kept-too-much" }),
+                format!("1150 projects each with a target/ directory, patterns {pats:?}: {name} has {} paths, the rule {}; e.g. only in {name}: {:?}, only in rule: {:?}", got.len(), expected.len(), got.difference(&expected).next(), expected.difference(got).next()),
+                replay,
+            );
+            return;
+        }
+    }
+    run.count("backups_excluding_more_than_1000_directories", 1);
+}
+
 pub fn run(tier: Tier, replay: Option<Value>) -> i32 {
-    let run = Run::new("C15", "exploration", tier, replay);
-    run.par_cases(tier.pick(3000, 300000), super::threads(), |c| one_case(&run, c));
+    let run = Run::new("C15", "exploration", tier, replay.clone());
+    if replay.as_ref().and_then(|r| r.get("many_excluded_dirs")).is_some() {
+        many_excluded_dirs(&run);
+        return run.finish("replay", &[], None, &[]);
+    }
+    if replay.is_none() {
+        super::alongside(&run, "the many-excluded-directories case", || many_excluded_dirs(&run), || run.par_cases(tier.pick(3000, 300000), super::threads(), |c| one_case(&run, c)));
+    } else {
+        run.par_cases(tier.pick(3000, 300000), super::threads(), |c| one_case(&run, c));
+    }
     run.finish(
-        "generated trees (depth <= 4, names with extensions, upper/lower case, digits, non-ASCII) x sets of 1-4 (one case in twelve: 8-15) exclusion patterns instantiated from the tree: anchored file and directory paths, bare names, '*.ext', '?x', 'd/*/f', '**/n', 'd/**', '[ab]*', '[!a-z]*', 'é*', '/d/*', '/*.ext', '/*/name', 'dir?child' and 'dir[!a]child' (which must not match across the separator), '{a,b}' and '/{a,b}', '**/n/**', '/d/**/n', a name in the other case (must not match), 'c*' and '/c*', '**' glued to a name ('c**', '/c**', '**c'). Every 20th case has two directories of 150-400 files, about 95% of which a '*.o'-like pattern excludes, stored in hunks of 33-100 entries. Observed: (a) the paths stored by backup(exclude=E) decoded independently, (b) iter_entries(full backup, exclude=E), (c) the paths created by restore(full backup, exclude=E); all three must equal, below the root, the set given by the rule 'omitted iff the path or an ancestor matches a pattern' evaluated with globs the harness builds from the raw patterns (leading '/' anchors at the root, otherwise any depth). (d) list and restore of the full backup with the exclusions AND a subtree selection S (a directory the rule keeps) must give the part of that set at or below S. Non-trivial = some but not all paths excluded.",
+        "generated trees (depth <= 4, names with extensions, upper/lower case, digits, non-ASCII) x sets of 1-4 (one case in twelve: 8-15) exclusion patterns instantiated from the tree: anchored file and directory paths, bare names, '*.ext', '?x', 'd/*/f', '**/n', 'd/**', '[ab]*', '[!a-z]*', 'é*', '/d/*', '/*.ext', '/*/name', 'dir?child' and 'dir[!a]child' (which must not match across the separator), '{a,b}' and '/{a,b}', '**/n/**', '/d/**/n', a name in the other case (must not match), 'c*' and '/c*', '**' glued to a name ('c**', '/c**', '**c'). One tree of 1150 projects, each with a target/ directory, is backed up and listed with the patterns 'target' and '*.o' (more than a thousand directories pruned in one walk). Every 20th case has two directories of 150-400 files, about 95% of which a '*.o'-like pattern excludes, stored in hunks of 33-100 entries. Observed: (a) the paths stored by backup(exclude=E) decoded independently, (b) iter_entries(full backup, exclude=E), (c) the paths created by restore(full backup, exclude=E); all three must equal, below the root, the set given by the rule 'omitted iff the path or an ancestor matches a pattern' evaluated with globs the harness builds from the raw patterns (leading '/' anchors at the root, otherwise any depth). (d) list and restore of the full backup with the exclusions AND a subtree selection S (a directory the rule keeps) must give the part of that set at or below S. Non-trivial = some but not all paths excluded.",
         &["globset's matcher is trusted for what a single glob matches; anchoring, ancestor propagation and the three code paths are what is checked"],
         None,
-        &[("observations_compared", 100), ("cases_excluding_some_but_not_all", 30), ("cases_excluding_a_directory_with_children", 10), ("subtree_and_exclude_combinations", 100), ("cases_with_hundreds_of_entries", 20)],
+        &[("observations_compared", 100), ("cases_excluding_some_but_not_all", 30), ("cases_excluding_a_directory_with_children", 10), ("subtree_and_exclude_combinations", 100), ("cases_with_hundreds_of_entries", 20), ("backups_excluding_more_than_1000_directories", 1)],
     )
 }
